@@ -4,6 +4,7 @@ package main
 
 import (
 	"bytes"
+	"context"
 	"fmt"
 	"strings"
 	"time"
@@ -198,11 +199,14 @@ type shapeRun struct {
 	a        *hub.Client
 	prepared bool
 	ok       bool
+	ctx      context.Context // the caller's context of the final Commit (a fault may cancel it)
+	cancel   context.CancelFunc
 }
 
 func startShape(s shape, r *vx.Rand) *shapeRun {
 	w := hub.NewWorld(rec, hub.Options{Full: lean, Seed: r.U64(), Splits: s.layout, Stores: s.stores})
 	sr := &shapeRun{w: w, s: s}
+	sr.ctx, sr.cancel = context.WithCancel(context.Background())
 	w.Note("shape " + s.String())
 	for _, k := range s.keys {
 		w.TrackKey(k)
@@ -227,7 +231,11 @@ func (sr *shapeRun) final() (res string, returned bool) {
 			}
 		}()
 		if sr.prepared {
-			done <- sr.a.Commit()
+			if sr.ctx != nil {
+				done <- sr.a.CommitCtx(sr.ctx)
+			} else {
+				done <- sr.a.Commit()
+			}
 		} else {
 			done <- sr.a.Rollback()
 		}
